@@ -1,0 +1,8 @@
+//go:build !verif
+
+package internal
+
+import "time"
+
+// verifTimerReset is a verification hook; it does nothing in the default build.
+func verifTimerReset(*EventTimer, time.Duration) {}
